@@ -287,6 +287,26 @@ fn big_mixed(rng: &mut Rng, n0: usize, bogus: usize, real: usize, new: usize, ca
     run.finish(vec![format!("bigmixed/{n0}+{bogus}b{real}r{new}n x{rounds}")])
 }
 
+/// at the cap, one more want (does not fit), optionally cancelled again; then its block becomes available: a want that never
+/// entered the want set (or was withdrawn) must not be served (C07), and nothing about it may be on record (C13)
+fn over_cap_then_available(rng: &mut Rng, cancel: bool, full_first: bool) -> Case {
+    let mut run = Run::new(1);
+    run.new_conn(0);
+    let entries: Vec<Entry> = (0..1024u32).map(|i| entry(&tiny_cid(i), false, rng)).collect();
+    run.msg(0, Wantlist { entries, full: full_first });
+    let x = tiny_cid(500_000);
+    let y = tiny_cid(7);
+    run.msg(0, Wantlist { entries: vec![entry(&x, false, rng)], full: false });
+    if cancel {
+        run.msg(0, Wantlist { entries: vec![entry(&x, true, rng)], full: false });
+    }
+    run.poll();
+    run.new_blocks(vec![(x, vec![1, 2, 3]), (y, vec![4, 5])]);
+    run.poll();
+    run.disconnected(0);
+    run.finish(vec![format!("overcap/cancel{}", cancel as u8)])
+}
+
 pub fn run(seed: u64, n: usize, tier: &str) {
     let mut rng = Rng::new(seed);
     let sizes: &[usize] = if tier == "thorough" { &[0, 1, 1023, 1024, 1025, 2048, 5000] } else { &[0, 1, 1023, 1024, 1025, 1300] };
@@ -297,6 +317,8 @@ pub fn run(seed: u64, n: usize, tier: &str) {
     for (n0, bogus, real, new, first, rounds) in [(1020usize, 8usize, 0usize, 60usize, true, 1usize), (1024, 20, 3, 30, false, 2), (1000, 5, 5, 40, true, 2), (1024, 0, 10, 25, rng.chance(1, 2), 1)] {
         big_mixed(&mut rng, n0, bogus, real, new, first, rounds).print();
     }
+    over_cap_then_available(&mut rng, true, false).print();
+    over_cap_then_available(&mut rng, false, true).print();
     for i in 0..n {
         let len = if i % 5 == 0 { 60 } else { 8 + rng.usize(24) };
         history(&mut rng, len).print();
